@@ -18,7 +18,12 @@ Oracles (implementation alone), evaluated whenever the queue is empty:
       the numbers of the settings at that request (plots: last request with a non-empty selection; table: last request).
       Every cell of the statistics table must be the formatted number the library returns (a row that equals no library result is reported
       cell by cell); the catalogue has series whose min / max is exactly 0.0.
-  O4  (once per run) `calculate_trace/stats/rfc` honour window, filter, minima and bin arguments (against TimeSeries methods).
+      When a view shows the right series and settings as decoded through `qats.app.funcs`, it is decoded a second time against the
+      library proper (`Env.direct`: TimeSeries.get / maxima / minima / psd / rfc+rebin / stats called with the window and filter, funcs
+      not involved) and must give the same answer: also the peak / trough markers ('show in plot'), every statistics cell, the spectrum.
+  O4  (once per run, every series x window x filter x maxima/minima of the tables) every number `calculate_trace/stats/psd/rfc` return --
+      trace, peak and trough markers, spectral density, all statistics, bin positions and counts -- is the one the TimeSeries methods
+      give for the processed (windowed and filtered) signal.
 Catalogue: f1.ts (3 series), f2.ts (2), f3.ts (1), run.ts (2) and sub/run.ts (2) -- the same file name at two depths sharing one series
 name, so that list labels ('run.ts/qg') are ambiguous patterns while full keys are not; labels on screen are mapped to keys through the numbers.
 
@@ -49,6 +54,7 @@ MISSING = 9
 TWINS = [(0.0, 1_000_000_000.0), (10.0, 100.0), (20.5, 70.25)]
 FILTS = [None, ("lp", 1.0), ("hp", 0.5)]
 NBINS = 12
+NPERSEG = 20000
 DISP = ("R", "Ct", "Cs", "Cp", "Cr")
 VIEWS = ("tr", "sp", "wb", "cy", "tb")
 RULE = ("histories over {import (new / loaded / missing / same file twice / new+loaded), clear, tick, (un)select all, list filter, display, "
@@ -162,8 +168,24 @@ class Env:
     def path(self, f):
         return os.path.join(self.root, fname(f))
 
-    # ---- reference numbers (library called directly) ---------------------------------------------------------------------------------
+    # ---- reference numbers -----------------------------------------------------------------------------------------------------------
+    def _derive_stats(self, r, mn):
+        """what the table and the peak-distribution view draw from a statistics dictionary (formulas of the views, independent code)"""
+        r = dict(r)
+        r["sample"] = np.array(r["sample"], dtype=float)
+        r["cells"] = [("%12.5g" % r.get(k, np.nan)).strip() for k in self.gui.STATS_ORDER[1:]]
+        x = np.sort(r["sample"] * (-1.0 if mn else 1.0))
+        p = np.array([0.2, 0.5, 0.7, 0.8, 0.9, 0.95, 0.99, 0.999, 0.9999])
+        with np.errstate(all="ignore"):
+            mask = x >= r["wloc"]
+            r["wb_x"] = np.log(x[mask] - r["wloc"])
+            r["wb_y"] = np.log(np.log(1. / (1. - (np.arange(x.size) + 1.) / (x.size + 1.))))[mask]
+            r["wb_q"] = np.log(r["wscale"] * (-np.log(1. - p)) ** (1. / r["wshape"]))
+        r["wb_p"] = np.log(np.log(1. / (1. - p)))
+        return r
+
     def lib(self, kind, key, tw, fl, mn=False):
+        """results of qats.app.funcs.calculate_* (what the workers compute) for one series of the catalogue"""
         ck = (kind, key, tw, fl, mn)
         if ck not in self.cache:
             from qats.app import funcs
@@ -172,22 +194,36 @@ class Env:
             if kind == "trace":
                 r = funcs.calculate_trace(c, twin, fargs)["x"]
             elif kind == "psd":
-                r = funcs.calculate_psd(c, twin, fargs, 20000, False)["x"]
+                r = funcs.calculate_psd(c, twin, fargs, NPERSEG, False)["x"]
             elif kind == "rfc":
                 r = funcs.calculate_rfc(c, twin, fargs, NBINS)["x"]
             else:
-                r = funcs.calculate_stats(c, twin, fargs, minima=mn)["x"]
-                r = dict(r)
-                r["sample"] = np.array(r["sample"], dtype=float)
-                r["cells"] = [("%12.5g" % r.get(k, np.nan)).strip() for k in self.gui.STATS_ORDER[1:]]
-                x = np.sort(r["sample"] * (-1.0 if mn else 1.0))
-                mask = x >= r["wloc"]
-                p = np.array([0.2, 0.5, 0.7, 0.8, 0.9, 0.95, 0.99, 0.999, 0.9999])
-                with np.errstate(all="ignore"):
-                    r["wb_x"] = np.log(x[mask] - r["wloc"])
-                    r["wb_y"] = np.log(np.log(1. / (1. - (np.arange(x.size) + 1.) / (x.size + 1.))))[mask]
-                    r["wb_q"] = np.log(r["wscale"] * (-np.log(1. - p)) ** (1. / r["wshape"]))
-                r["wb_p"] = np.log(np.log(1. / (1. - p)))
+                r = self._derive_stats(funcs.calculate_stats(c, twin, fargs, minima=mn)["x"], mn)
+            self.cache[ck] = r
+        return self.cache[ck]
+
+    def direct(self, kind, key, tw, fl, mn=False):
+        """the same numbers from the library proper: TimeSeries methods called with the window and filter (qats.app.funcs not involved);
+        same layout as `lib`"""
+        ck = ("direct", kind, key, tw, fl, mn)
+        if ck not in self.cache:
+            from qats.fatigue.rainflow import rebin
+            ts = self.ref[key]
+            kw = dict(twin=TWINS[tw], filterargs=FILTS[fl])
+            if kind == "trace":
+                t, x = ts.get(**kw)
+                xmax, tmax = ts.maxima(rettime=True, **kw)
+                xmin, tmin = ts.minima(rettime=True, **kw)
+                r = dict(t=t, x=x, tmin=tmin, xmin=xmin, tmax=tmax, xmax=xmax)
+            elif kind == "psd":
+                # documented choices of the spectrum view: resampled to the average step, 10 % taper, one segment of at most NPERSEG samples
+                n = ts.get(twin=TWINS[tw], resample=ts.dt)[0].size
+                r = tuple(ts.psd(nperseg=min(NPERSEG, n), normalize=False, resample=ts.dt, taperfrac=0.1, **kw))
+            elif kind == "rfc":
+                cyc = rebin(ts.rfc(**kw), binby="range", n=NBINS)
+                r = (tuple(c[0] for c in cyc), tuple(c[2] for c in cyc))
+            else:
+                r = self._derive_stats(ts.stats(statsdur=10800., quantiles=(0.37, 0.57, 0.9), is_minima=mn, include_sample=True, **kw), mn)
             self.cache[ck] = r
         return self.cache[ck]
 
@@ -219,16 +255,46 @@ class Env:
                     if not close(np.sort(st["sample"]), np.sort(mx)):
                         chk.fail("O4 calculate_stats fits the maxima (minima when requested) of the processed signal",
                                  dict(kind="funcs", key=kstr(key), twin=tw, filt=fl, minima=mn), "sample == ts.%s()" % ("minima" if mn else "maxima"), "different sample")
+                    # every number of the statistics dictionary (the table shows skew, kurt, tz, the fitted parameters and the quantiles too)
+                    dst = self.direct("stats", key, tw, fl, mn)
+                    inp = dict(kind="funcs", key=kstr(key), twin=tw, filt=fl, minima=mn)
+                    nums = [k for k in dst if k not in ("sample", "cells", "is_minima") and not k.startswith("wb_")]
+                    bad = [k for k in nums if k not in st or not close(st[k], dst[k])]
+                    if bad or set(k for k in st if not k.startswith("wb_")) != set(k for k in dst if not k.startswith("wb_")):
+                        chk.fail("O4 calculate_stats returns the statistics TimeSeries.stats gives for the window, filter and maxima/minima choice "
+                                 "(3 h extremes, quantiles 0.37 / 0.57 / 0.9)", inp, {k: float(dst[k]) for k in bad} or sorted(dst),
+                                 {k: (float(st[k]) if k in st else None) for k in bad} or sorted(st))
                 t, x = ts.get(twin=TWINS[tw], filterargs=FILTS[fl])
                 if not (close(tr["t"], t) and close(tr["x"], x)):
                     chk.fail("O4 calculate_trace returns the windowed and filtered signal", dict(kind="funcs", key=kstr(key), twin=tw, filt=fl),
                              "ts.get(twin, filterargs)", "different arrays")
+                # the peaks and troughs drawn with 'show in plot' are those of the SAME processed signal
+                dtr = self.direct("trace", key, tw, fl)
+                for what, tk, xk in (("maxima", "tmax", "xmax"), ("minima", "tmin", "xmin")):
+                    chk.count("funcs-contract")
+                    if not (close(tr[tk], dtr[tk]) and close(tr[xk], dtr[xk])):
+                        off = float(np.max(np.abs(np.asarray(tr[xk], dtype=float) - np.interp(np.asarray(tr[tk], dtype=float), t, x)))) \
+                            if (np.asarray(tr[tk]).size and np.asarray(tr[tk]).shape == np.asarray(tr[xk]).shape) else float("nan")
+                        chk.fail("O4 calculate_trace returns the %s of the windowed and filtered signal (TimeSeries.%s(twin, filterargs, rettime=True)): "
+                                 "the markers lie on the drawn trace" % (what, what), dict(kind="funcs", key=kstr(key), twin=tw, filt=fl),
+                                 "%d %s, all on the trace" % (np.asarray(dtr[tk]).size, what),
+                                 "%d %s, up to %.3g off the trace" % (np.asarray(tr[tk]).size, what, off))
+                dps = self.direct("psd", key, tw, fl)
+                chk.count("funcs-contract")
+                if not (len(ps) == 2 and close(ps[0], dps[0]) and close(ps[1], dps[1])):
+                    chk.fail("O4 calculate_psd returns the spectral density of the windowed and filtered signal (TimeSeries.psd(twin, filterargs; "
+                             "resampled to dt, 10 % taper, nperseg = min(setting, length)))", dict(kind="funcs", key=kstr(key), twin=tw, filt=fl),
+                             "%d frequencies, sum of densities %.9g" % (np.size(dps[0]), float(np.sum(dps[1]))),
+                             "%d frequencies, sum of densities %.9g" % (np.size(ps[0]), float(np.sum(ps[1]))))
                 cyc = ts.rfc(twin=TWINS[tw], filterargs=FILTS[fl])
                 if len(rf[0]) != NBINS or not close(sum(rf[1]), sum(c[2] for c in cyc)) or \
                         not close(rf[1], [c[2] for c in rebin(cyc, binby="range", n=NBINS)]):
                     chk.fail("O4 calculate_rfc bins the cycles of the processed signal into the requested number of bins",
                              dict(kind="funcs", key=kstr(key), twin=tw, filt=fl), "%d bins, total count %g" % (NBINS, sum(c[2] for c in cyc)),
                              "%d bins, total %g" % (len(rf[0]), sum(rf[1])))
+                elif not close(rf[0], self.direct("rfc", key, tw, fl)[0]):
+                    chk.fail("O4 calculate_rfc places the bins at the ranges rebin(cycles, binby='range') gives",
+                             dict(kind="funcs", key=kstr(key), twin=tw, filt=fl), [float(v) for v in self.direct("rfc", key, tw, fl)[0]], [float(v) for v in rf[0]])
                 for nm, sig in (("trace", (tr["x"].size, float(tr["x"].sum()))), ("psd", (ps[1].size, float(np.sum(ps[1])))),
                                 ("rfc", tuple(np.round(rf[1], 9)) + tuple(np.round(rf[0], 9)))):
                     if sig in seen.setdefault(nm, {}):
@@ -391,7 +457,8 @@ def _ktok(keys):
     return ",".join(kstr(k) for k in keys) if keys else "-"
 
 
-def obs_trace(env):
+def obs_trace(env, src=None):
+    lib = src or env.lib
     gs, bad = _groups(env.win.history_axes.get_lines())
     if not gs and not bad:
         return "-"
@@ -400,7 +467,7 @@ def obs_trace(env):
         def match(key):
             c = []
             for tw, fl in itertools.product(range(len(TWINS)), range(len(FILTS))):
-                r = env.lib("trace", key, tw, fl)
+                r = lib("trace", key, tw, fl)
                 if close(main.get_xdata(), r["t"]) and close(main.get_ydata(), r["x"]):
                     if comp is None:
                         c.append((tw, fl, 0))
@@ -415,7 +482,8 @@ def obs_trace(env):
     return _ktok(keys) + ":" + ("?" if bad else _settle(cands))
 
 
-def obs_spectrum(env):
+def obs_spectrum(env, src=None):
+    lib = src or env.lib
     gs, bad = _groups(env.win.spectrum_axes.get_lines())
     if not gs and not bad:
         return "-"
@@ -425,7 +493,7 @@ def obs_spectrum(env):
             c = []
             if comp is None:
                 for tw, fl in itertools.product(range(len(TWINS)), range(len(FILTS))):
-                    f, sp = env.lib("psd", key, tw, fl)
+                    f, sp = lib("psd", key, tw, fl)
                     if close(main.get_xdata(), f) and close(main.get_ydata(), sp):
                         c.append((tw, fl, 0))
             return c
@@ -435,7 +503,8 @@ def obs_spectrum(env):
     return _ktok(keys) + ":" + ("?" if bad else _settle(cands))
 
 
-def obs_weibull(env):
+def obs_weibull(env, src=None):
+    lib = src or env.lib
     gs, bad = _groups(env.win.weibull_axes.get_lines())
     if not gs and not bad:
         return "-"
@@ -445,7 +514,7 @@ def obs_weibull(env):
             c = []
             if comp is not None:
                 for tw, fl, mn in itertools.product(range(len(TWINS)), range(len(FILTS)), (False, True)):
-                    r = env.lib("stats", key, tw, fl, mn)
+                    r = lib("stats", key, tw, fl, mn)
                     if close(main.get_xdata(), r["wb_x"]) and close(main.get_ydata(), r["wb_y"]) and \
                             close(comp.get_xdata(), r["wb_q"]) and close(comp.get_ydata(), r["wb_p"]):
                         c.append((tw, fl, int(mn)))
@@ -456,7 +525,8 @@ def obs_weibull(env):
     return _ktok(keys) + ":" + ("?" if bad else _settle(cands))
 
 
-def obs_cycles(env):
+def obs_cycles(env, src=None):
+    lib = src or env.lib
     ax = env.win.cycles_axes
     cs = [c for c in ax.containers if hasattr(c, "patches")]
     if not cs and not ax.get_lines():
@@ -469,7 +539,7 @@ def obs_cycles(env):
         def match(key):
             c = []
             for tw, fl in itertools.product(range(len(TWINS)), range(len(FILTS))):
-                r, n = env.lib("rfc", key, tw, fl)
+                r, n = lib("rfc", key, tw, fl)
                 if close(h, n) and close(x, r):
                     c.append((tw, fl, 0))
             return c
@@ -491,12 +561,13 @@ def table_rows(env):
     return out
 
 
-def obs_table(env):
+def obs_table(env, src=None):
+    lib = src or env.lib
     rows = []
     for lab, cells in table_rows(env):
         def match(key):
             return [(tw, fl, int(mn)) for tw, fl, mn in itertools.product(range(len(TWINS)), range(len(FILTS)), (False, True))
-                    if env.lib("stats", key, tw, fl, mn)["cells"] == cells]
+                    if lib("stats", key, tw, fl, mn)["cells"] == cells]
         k, m = env.resolve(lab, match)
         rows.append(kstr(k) + ":" + ("%d:%d:%d" % m[0] if len(m) == 1 else "?"))
     return ",".join(rows) if rows else "-"
@@ -564,6 +635,9 @@ def obs_status(env):
 def obs_db(env):
     ks = [env.key_of_path(p) for p in env.win.db.register_keys]
     return ",".join("?" if k is None else kstr(k) for k in ks) if ks else "-"
+
+
+OBSERVERS = dict(tr=obs_trace, sp=obs_spectrum, wb=obs_weibull, cy=obs_cycles, tb=obs_table)
 
 
 def observe(env):
@@ -643,6 +717,7 @@ class Runner:
         self.shape = dict(overlap=False, late_setting=False, clear_busy=False, requests=[], late_values=[])
         self.displays_done = 0
         self.loaded = set()                      # files the user has imported successfully since the last clear (harness' own record)
+        self.lib_checked = set()                 # (view, content) already compared with the library proper in this history
 
     busy = property(lambda self: any(wk._kind in DISP for wk in self.env.pool.q))
 
@@ -750,11 +825,20 @@ class Runner:
                                            {nm: e for nm, e, _ in diff}, {nm: ob for nm, _, ob in diff},
                                            dict(view="tb-cell", row=lab, closest="%s:%d:%d:%d" % (kstr(key), tw, fl, mn))))
         sv = spec_views(self.rp, self.rt)
+        names = dict(tr="trace", sp="spectrum", wb="peak distribution", cy="cycle histogram", tb="statistics table")
         for v in VIEWS:
             if o[v] != sv[v]:
-                names = dict(tr="trace", sp="spectrum", wb="peak distribution", cy="cycle histogram", tb="statistics table")
                 self.fails.append(("O3 when idle the %s shows the series and settings of the most recent display request" % names[v], sv[v], o[v],
                                    dict(view=v)))
+            elif sv[v] != "-" and (v, sv[v]) not in self.lib_checked:
+                # right series and settings as far as the workers' own functions go: the drawn numbers must also be the numbers the library
+                # proper (TimeSeries methods, qats.app.funcs not involved) returns for these series and settings
+                self.lib_checked.add((v, sv[v]))
+                od = OBSERVERS[v](env, src=env.direct)
+                if od != sv[v]:
+                    self.fails.append(("O3 when idle the %s shows the numbers the library returns (TimeSeries.get / maxima / minima / psd / rfc / stats "
+                                       "called with the window, filter and maxima/minima choice of the most recent display request)" % names[v],
+                                       sv[v], od, dict(view=v + "-lib")))
 
     def drain(self, rng=None, order=None):
         """complete everything that is still queued (random order, or first-in first-out)"""
@@ -1016,6 +1100,8 @@ def run(chk):
         "FigureCanvas.draw is a no-op (pixels are not observed; lines, bars, labels and table cells are)",
         "files f1..f3, run.ts in one directory and sub/run.ts below it; plain series names, one of them on two files; settings taken from 3 windows x 3 filters x maxima/minima x show-in-plot",
         "a view's settings are decoded by matching drawn numbers with qats.app.funcs.calculate_* called directly on separately read series",
+        "library reference of the spectrum view: TimeSeries.psd(twin, filterargs, resample=dt, taperfrac=0.1, nperseg=min(20000, length)), of the "
+        "statistics: TimeSeries.stats(statsdur=10800, quantiles=(0.37, 0.57, 0.9)) -- the documented choices of the application",
     ]
     chk.partial += [
         "views_latest_quiet_partial: the views equal the latest request only for histories without display / clear / settings change while a "
